@@ -17,7 +17,8 @@ TRACE_CFG = "SPECIFICATION Spec\nCHECK_DEADLOCK FALSE\n"
 MC_CFG = "SPECIFICATION Spec\nCONSTRAINT Bound\nINVARIANT TypeOK\nPROPERTY RejectedIsFinal\nCHECK_DEADLOCK FALSE\n"
 FILES = ["pyoda_time/time_zones/Tzdb.nzd", "tests/test_data/Tzdb2013bFromNodaTime1.1.nzd"]
 CALL_TIMEOUT_S = 20
-AS_LIMIT = 3 * 2**30    # address-space cap per worker: a decoded count must never translate into a multi-GiB allocation
+AS_HEADROOM = 2**30     # address-space headroom per worker above what it uses when it starts: a count decoded from damaged bytes
+                        # must never translate into a GiB-sized allocation (the whole input is ~130 KB)
 
 
 class _Hang(Exception):
@@ -92,10 +93,16 @@ def attempt(args):
     path, kind, pos, payload, probe_ids, seed = args
     import resource
 
-    try:
-        resource.setrlimit(resource.RLIMIT_AS, (AS_LIMIT, AS_LIMIT))
-    except Exception:  # noqa: BLE001
-        pass
+    global _LIMITED
+    if not _LIMITED:
+        try:
+            import os as _os
+
+            vm_now = int(open("/proc/self/statm").read().split()[0]) * _os.sysconf("SC_PAGE_SIZE")
+            resource.setrlimit(resource.RLIMIT_AS, (vm_now + AS_HEADROOM, vm_now + AS_HEADROOM))
+        except Exception:  # noqa: BLE001
+            pass
+        _LIMITED = True
     from pyoda_time.time_zones import DateTimeZoneCache
     from pyoda_time.time_zones._tzdb_date_time_zone_source import TzdbDateTimeZoneSource
 
@@ -116,7 +123,19 @@ def attempt(args):
         raise ValueError(kind)
     ev = {"op": "fault", "file": path.split("/")[-1], "kind": kind, "pos": pos, "payload": list(payload)[:12] if kind != "trunc" else [], "zones": [],
           "zone_where": [], "ids": "", "load_where": ""}
-    o, w, src = _guard(lambda: TzdbDateTimeZoneSource.from_stream(io.BytesIO(data)))
+    # the stream is an in-memory one or (every other attempt) a real unnamed file: they answer oversized reads differently
+    def open_stream():
+        if seed % 2:
+            import tempfile
+
+            f = tempfile.TemporaryFile()
+            f.write(data)
+            f.seek(0)
+            return f
+        return io.BytesIO(data)
+
+    ev["stream"] = "file" if seed % 2 else "memory"
+    o, w, src = _guard(lambda: TzdbDateTimeZoneSource.from_stream(open_stream()))
     ev["load"], ev["load_where"] = o, w
     if o != "ok":
         return ev
@@ -144,6 +163,7 @@ def attempt(args):
 
 
 _RAW: dict = {}
+_LIMITED = False
 _NSTRUCT: dict = {}
 
 
@@ -286,10 +306,10 @@ def run(ctx: Ctx):
     ctx.rule = ("faults applied to both real database files: truncation at every structural boundary +-1 and every "
                 + ("997th" if q else "61st") + " byte; 1-4 byte substitutions (0x00/0x7F/0x80/0xFF/+1/random), insertions and deletions at the field id, "
                 "length bytes, first data bytes, last byte and random interior bytes of every field; each faulted stream is loaded, its ids "
-                "listed and the zone containing the fault (plus 3 random ids) fetched and queried, every call under a 20 s alarm and a 3 GB "
+                "listed and the zone containing the fault (plus 3 random ids) fetched and queried, every call under a 20 s alarm and 1 GiB of address-space "
                 "address-space limit; non-trivial = distinct (file, fault)")
     ctx.assumptions += ["the structure map (field boundaries, zone ids) is derived with the package's own reader on the undamaged file",
-                        "hang = no return within 20 s; memory exhaustion = MemoryError under RLIMIT_AS 3 GiB"]
+                        "hang = no return within 20 s; memory exhaustion = MemoryError with 1 GiB of address space above the worker's starting size"]
 
 
 def replay(ctx, path):
